@@ -225,8 +225,9 @@ var kinds = []string{"query_range", "query_range", "query_range", "query", "labe
 
 func genResult(rt *rapid.T, l string, faulty bool) sqlfake.Result {
 	r := sqlfake.Result{
-		Series:      rapid.SampledFrom([]int{0, 1, 1, 2, 3, 7}).Draw(rt, l+".series"),
-		RowsPer:     rapid.SampledFrom([]int{0, 1, 2, 3, 50, 99, 100, 101, 250}).Draw(rt, l+".rows"),
+		Series: rapid.SampledFrom([]int{0, 1, 1, 2, 3, 7}).Draw(rt, l+".series"),
+		// (2000 per series: results of thousands of entries, handed through the pipeline in portions)
+		RowsPer:     rapid.SampledFrom([]int{0, 1, 2, 3, 50, 99, 100, 101, 250, 0, 1, 2, 3, 50, 99, 100, 101, 250, 0, 1, 2, 3, 50, 99, 100, 101, 250, 2000}).Draw(rt, l+".rows"),
 		FpZeroFirst: rapid.IntRange(0, 5).Draw(rt, l+".fp0") == 0,
 		Interleave:  rapid.IntRange(0, 5).Draw(rt, l+".il") == 0,
 		BaseNs:      946684800000000000 + int64(rapid.IntRange(-120, 120).Draw(rt, l+".base"))*1e9,
@@ -303,7 +304,7 @@ func genReq(rt *rapid.T, l string, faulty bool) Req {
 		r.Step = rapid.SampledFrom(stepVals).Draw(rt, l+".step")
 		r.Limit = rapid.SampledFrom(limitVals).Draw(rt, l+".limit")
 	} else if r.Limit == "" {
-		r.Limit = rapid.SampledFrom([]string{"", "1", "5", "100", "1000"}).Draw(rt, l+".lim")
+		r.Limit = rapid.SampledFrom([]string{"", "1", "5", "100", "1000", "10000"}).Draw(rt, l+".lim")
 	}
 	r.Direction = rapid.SampledFrom([]string{"", "forward", "backward", "x"}).Draw(rt, l+".dir")
 	if rapid.IntRange(0, 4).Draw(rt, l+".mutq") == 0 {
